@@ -206,6 +206,7 @@ def _lev(a, b):
 
 @obligation(params=dict(a=Text(3), b=Text(3)), tags={2: 'equal strings', 3: 'different strings'}, timeout=600,
             pre=['a_n <= b_n or a_n > b_n'],
+            thorough=dict(params=dict(a=Text(4), b=Text(4)), timeout=3000),
             note='levenshtein_distance equals the textbook edit distance (symbolic strings, <= 3 characters each)')
 def G2_levenshtein(a, b):
     s = PX.pxssh()
